@@ -24,6 +24,8 @@ def V(id, props, unit, level="proof", bound="", tier="quick", functions=(), desc
 # ---------------------------------------------------------------------------------------------
 K("O15.1", ["C15", "C06"], "object", "c15_int_roundtrip", functions=["Object::int", "Object::as_int", "Object::tag", "Object::is_heap_allocated", "Object::with_type"],
   desc="forall v in [MIN_INT,MAX_INT]: int(v) has tag Int, reads back v, is immediate; debug_assert unreachable")
+K("O15.1r", ["C15", "C06"], "object", "c15_as_int_range", functions=["Object::as_int"],
+  desc="as_int of ANY 64-bit word lies in [MIN_INT, MAX_INT] (accessor contract assumed by the Verus units)")
 K("O15.2", ["C15"], "object", "c15_int_injective", functions=["Object::int", "PartialEq::eq"],
   desc="int(a)==int(b) <=> a==b through the real PartialEq::eq")
 K("O15.3", ["C15"], "object", "c15_null_bool", functions=["Object::null", "Object::bool", "Object::as_bool", "PartialEq::eq"],
@@ -73,6 +75,11 @@ for _f in ("add", "sub", "mul", "div", "rem", "lt", "lte", "gt", "gte", "eq", "n
       desc="all 42 ordered pairs of distinct types, ALL payload words: Err(TypeError), no panic")
     K("O06.5b." + _f, ["C06", "C05"], "object", "c06_same_" + _f, needs_fmt_stub=True, functions=["Object::" + _f, "PartialOrd::partial_cmp", "PartialEq::eq"],
       desc="same type, unsupported operator -> TypeError; and/or truth table; bool order; ==/!= of null, bool, function, array decided by the words; no panic")
+K("P06.2", [], "object", "c06_int_arith_exact_probe", level="probe-only", tier="probe",
+  desc="executable form of O06.2 used only for native replay on the boundary lattice (never sent to CBMC)")
+V("O06.2", ["C06"], "c06_arith", expect_verified=12, paired="P06.2",
+  functions=["Object::checked_int", "Object::add", "Object::sub", "Object::mul", "Object::div", "Object::rem"],
+  desc="unbounded, over mathematical integers: the Int arm of + - * / % answers the exact sum / difference / product / truncating quotient / remainder with the dividend's sign iff it is defined and in the 61-bit range, Err otherwise; lemma_tdiv_trem proves the quotient/remainder specs are truncating division")
 for _h in ("less", "prefix", "equal"):
     K("O06.6." + _h, ["C06"], "object", "c06_string_cmp_" + _h, level="bounded", bound="one concrete pair of texts", needs_fmt_stub=True,
       functions=["PartialOrd::partial_cmp", "PartialEq::eq"], desc="six comparisons on two texts equal byte-lexicographic order")
@@ -112,6 +119,7 @@ def probes_for(o):
 
 
 def _probe(harness, name, vals):
+    name = name.replace("-", "m")
     rows = ",\n".join("        vec![%s]" % ", ".join(str(b) for b in v) for v in vals)
     return ("#[test]\nfn kani_concrete_playback_%s_probe_%s() {\n    let concrete_vals: Vec<Vec<u8>> = vec![\n%s\n    ];\n"
             "    kani::concrete_playback_run(concrete_vals, %s);\n}\n" % (harness, name, rows, harness))
@@ -122,6 +130,9 @@ def le(v, n=8):
 
 
 PROBES = {}
+_LAT = [0, 1, -1, 2, -2, 7, -7, 10, 3, (1 << 31), -(1 << 31), (1 << 59), -(1 << 59), (1 << 60) - 1, -(1 << 60), (1 << 30) + 1, 1000003]
+PROBES["c06_int_arith_exact_probe"] = [_probe("c06_int_arith_exact_probe", "%d_%d_%d" % (op, i, j), [[op], le(a), le(b)])
+                                        for op in range(5) for i, a in enumerate(_LAT) for j, b in enumerate(_LAT)]
 # boundary lattice for harnesses whose symbolic inputs are two `any_int()` calls (8 little-endian bytes each)
 _MAXI, _MINI = (1 << 60) - 1, -(1 << 60)
 _PAIRS = [(-1, 1), (1, -1), (_MAXI, 1), (_MINI, -1), (_MINI, 1), (7, 0), (-7, 2), (_MAXI, _MAXI), (_MINI, _MINI), (1 << 31, 1 << 31), (10, 3)]
